@@ -200,8 +200,11 @@ func TestVfStatic(t *testing.T) {
 			}
 			used[p] = true
 			e := vfStEntry{Pat: vfChars(p), Proto: protos[rnd.Intn(len(protos))], NHost: vfChars(fmt.Sprintf("hop%d", j))}
-			if rnd.Intn(2) == 0 {
+			switch rnd.Intn(4) {
+			case 0:
 				e.NPort = 1024 + rnd.Intn(60000)
+			case 1: // a default port written out (5060 on a tls hop and 5061 on a udp hop are explicit choices, not defaults)
+				e.NPort = []int{5060, 5061}[rnd.Intn(2)]
 			}
 			c.Tab = append(c.Tab, e)
 		}
